@@ -312,8 +312,17 @@ def execute(case, ctx):
                     tp["B"] = {"L": nv, "R": max(1, nv),
                                "edges": [[u, u] for u in range(1, nv + 1)]}
             what = "transform:" + tname
-            with installed(SimRandom(op["seed"])):
-                r = call(tapply, F, tp)
+            if "B" in tp:
+                # the compression graph is an argument too: it joins the
+                # pool and must come back unchanged
+                B = registry.mk_bip(tp["B"])
+                pool.add("graph", B, "compression graph@%d" % si)
+                fn = "xor" if tname == "xorcomp" else "maj"
+                with installed(SimRandom(op["seed"])):
+                    r = call(cnfgen.VariableCompression, F, B, fn)
+            else:
+                with installed(SimRandom(op["seed"])):
+                    r = call(tapply, F, tp)
             if r[0] == "exc":
                 if isinstance(r[1], ValueError):
                     ctx.note("transformation refused its arguments")
